@@ -379,6 +379,7 @@ func c13RunCase(tb vt.TB, backend string, ops []*world.Op) {
 // three ship the subchart unchanged; a changed one under --reuse-values mostly lands on a recorded finding).
 var c13PrevSub map[string]interface{}
 var c13SubUndeclared bool
+var c13PrevVersion int
 
 func c13Chart(t *rapid.T, ver int) world.ChartSpec {
 	cs := world.ChartSpec{Version: ver, ValuesProbe: true, Resources: []world.Res{{Kind: "ConfigMap", Name: "a", Variant: ver % 3}}, Defaults: c13GenTree(t, 1, "def")}
@@ -398,6 +399,12 @@ func c13Chart(t *rapid.T, ver int) world.ChartSpec {
 	// the subchart is listed under dependencies in Chart.yaml, or merely lies in charts/
 	// (one shape per case: a changed subchart under --reuse-values lands on a recorded finding when it is unlisted)
 	cs.SubUndeclared = c13SubUndeclared
+	// one chart in four keeps the version number of the chart generated before it although its defaults differ (a chart
+	// edited without a version bump, or a freshly loaded copy of the same version)
+	if ver > 1 && c13PrevVersion > 0 && rapid.IntRange(0, 3).Draw(t, "sameChartVersion") == 0 {
+		cs.Version = c13PrevVersion
+	}
+	c13PrevVersion = cs.Version
 	return cs
 }
 
@@ -412,6 +419,7 @@ func c13Defaults(cs world.ChartSpec) map[string]interface{} {
 
 func c13Prop(t *rapid.T) {
 	c13PrevSub = nil
+	c13PrevVersion = 0
 	c13SubUndeclared = rapid.IntRange(0, 3).Draw(t, "subchartNotListedUnderDependencies") == 0
 	// values survive a JSON round trip, as in production; one case in four runs on Helm's memory driver as it is, which
 	// keeps live chart objects (subcharts included) instead of a serialised record
